@@ -66,6 +66,24 @@ CHECKS += [
      "note": COMMON_NOTE},
 ]
 
+CHECKS += [
+    {"property_id": "C12",
+     "text": "Theorems C12_notations (a request tree written with ANY admissible notation per node - bare, tuple, object; tag by name or number; type explicit or inferred - parses to the message tree it denotes), C12_value_exact (every representable value is carried exactly), C12_int_exact / C12_non_integral_rejected (an integer conversion never changes the value: it accepts only the literal's exact integer, within range), C12_not_array. The model parser runs on annotated syntax trees (exact integer value, strconv float roundings and RFC 3339 instants as oracle annotations) and is compared with the real unmarshalJSONRequests in package main of cmd/e3dc on random trees, every notation assignment of small trees, out-of-range values for every type and malformed texts; expected denotations are checked directly.",
+     "design_ref": "6/C12", "technique": "Coq proof (print/parse round trip over all notation assignments, exact conversions) + correspondence through the in-package driver",
+     "note": COMMON_NOTE + "JSON text syntax, key matching and float rounding are modelled, not verified."},
+    {"property_id": "C13",
+     "text": "Theorems C13_merged_entry (what a key of jsonmerged holds: the last scalar, the one container's merged object, or the array of all container occurrences in order), C13_provenance (computed from the messages tagged k alone), C13_no_loss, C13_keys, C13_simple, C13_json. The three renderers produce documents that are compared text for text with the real NewJSON*Messages/json.Marshal output (leaf formatting of floats, strings, times from an oracle table), on repeated/interleaved container tags, collisions, all types incl. NaN/Inf and the whole timestamp range; every output is checked to be valid JSON and deterministic. KNOWN FINDINGS: non-finite floats and years outside 0..9999 make the tool fail (D12).",
+     "design_ref": "6/C13", "technique": "Coq proof of the grouping spec (entry k l) + text-exact correspondence through the in-package driver",
+     "note": COMMON_NOTE + "Number/string/time formatting is encoding/json's (oracle); two known findings are listed in KNOWN_FINDINGS."},
+    {"property_id": "C15",
+     "text": "PARTIAL. cli_main composes the request parser, the client over a scripted device and the output formats into the command; theorems C15_contract (exactly one of: help/version with status 0 and text on stderr; status 0 with one document on stdout and nothing on stderr; status 1 with nothing on stdout and a diagnostic), C15_nothing_sent (unusable flags/configuration, missing or malformed request text: nothing is transmitted), C15_unknown_output. The real binary is run in an empty directory with a clean environment against a scripted TCP device (request sources, formats, split, behaviours, flag errors, config files) and its status, exact stdout, stderr and the requests the device received are compared with the model; split vs unsplit output equality is evaluated directly.",
+     "design_ref": "6/C15", "technique": "Coq decision/composition model with contract proof + correspondence through the real binary",
+     "note": COMMON_NOTE + "jnovack/flag, os and the process exit path are outside the model; the absence of panic traces is observed."},
+    {"property_id": "C17",
+     "text": "PARTIAL. Theorems call_level_irrelevant (whatever the logger's level - the only datum clients share in the model - a call returns the same result and client state and leaves the same world up to log records, for every environment) and C17_interleave (k clients interleaved in ANY order behave as alone). Under the race detector k in {2,4,8,16} goroutines run client sessions against their own TCP devices and Write/Read loops on their own cipher states; each result must equal the model's sequential prediction and the race report must be empty; a go/ast footprint scan lists every package-level variable of rscp written by a function body (only the logger and the clock are allowed).",
+     "design_ref": "6/C17", "technique": "Coq proof of level irrelevance and interleaving + race-detector runs + footprint scan",
+     "note": COMMON_NOTE + "Data-race freedom is observed on the schedules the runs produce, not proved."},
+]
+
 _todo = "the machinery for this property is not built yet in this commit (planned: Coq model + theorem + correspondence, see DESIGN.md section 6)"
-NOT_APPLICABLE = [{"property_id": p, "reason": _todo} for p in
-                  ["C12", "C13", "C15", "C17"]]
+NOT_APPLICABLE = []
